@@ -39,7 +39,9 @@ FIXED = [
   ("C13", "regress/C13/F17-failed-append-index-not-told.json", "fix: invalidate the index when appending", "after a failed flush/fsync in insert the index answers without the point that storage holds"),
   ("C13", "regress/C13/F22-partial-index-flagged-valid.json", "fix: an index is flagged valid only once", "an I/O error during the index rebuild leaves a partial index flagged valid"),
   ("C03", "regress/C03/F24-update-in-w-plus-mode-truncates.json", "fix: update/remove in access mode \"w+\"", "in access mode w+ an update truncates the database when the primary file is reopened"),
-  ("C06", "regress/C06/F26-failed-deferred-flush-in-read.json", "fix: a read that fails with an OSError invalidates", "flush_on_insert=False: a deferred flush failing inside a read loses the buffered row and the index stays valid counting it"),
+  ("C06", "regress/C06/F26-failed-deferred-flush-in-read.json", "fix: an operation that fails with an OSError invalidates", "flush_on_insert=False: a deferred flush failing inside a read loses the buffered row and the index stays valid counting it"),
+  ("C06", "regress/C06/F26b-failed-deferred-flush-in-iter.json", "fix: an operation that fails with an OSError invalidates", "flush_on_insert=False: a deferred flush failing while the database is iterated loses the buffered row and the index stays valid counting it"),
+  ("C06", "regress/C06/F26c-failed-deferred-flush-in-remove-all.json", "fix: an operation that fails with an OSError invalidates", "flush_on_insert=False: a deferred flush failing at the rewind of remove_all loses the buffered row and the index stays valid counting it"),
   ("C05", "regress/C05/F19-int-precision.json", "fix: integer field values that a float cannot represent", "integers beyond 2**53 lose precision through CSV storage"),
 ]
 
